@@ -145,10 +145,10 @@ type Model struct {
 	Exp    map[*tlc.Node]*Exp
 	Labels map[string]Label
 	// out-edges grouped by label, per node
-	ByLabel  map[*tlc.Node]map[string][]int
-	Distinct int64
+	ByLabel   map[*tlc.Node]map[string][]int
+	Distinct  int64
 	Generated int64
-	Mining   *MiningSetup
+	Mining    *MiningSetup
 }
 
 func BuildModel(u *Universe, c *Concrete, res *tlc.Result) (*Model, error) {
